@@ -592,6 +592,12 @@ impl CompactThetaSketch {
         num_entries: usize,
         theta: u64,
     ) -> Result<Vec<u64>, Error> {
+        if theta == 0 || theta > MAX_THETA {
+            return Err(Error::deserial("corrupted: theta out of range"));
+        }
+        if num_entries > cursor.remaining() / 8 {
+            return Err(Error::insufficient_data("entries"));
+        }
         let mut entries = Vec::with_capacity(num_entries);
         for _ in 0..num_entries {
             let hash = cursor.read_u64_le().map_err(insufficient_data("entries"))?;
@@ -754,6 +760,11 @@ impl CompactThetaSketch {
             entries = Self::read_entries(&mut cursor, num_entries as usize, theta)?;
         }
         let ordered = (flags & serialization::FLAGS_IS_ORDERED) != 0;
+        if ordered && entries.windows(2).any(|w| w[0] >= w[1]) {
+            return Err(Error::deserial(
+                "corrupted: entries of an ordered sketch are not ascending",
+            ));
+        }
         Ok(Self {
             entries,
             theta,
@@ -801,6 +812,18 @@ impl CompactThetaSketch {
         }
 
         // unpack blocks of BLOCK_WIDTH deltas
+        if theta == 0 || theta > MAX_THETA {
+            return Err(Error::deserial("corrupted: theta out of range"));
+        }
+        if !(1..=63).contains(&entry_bits) && num_entries > 0 {
+            return Err(Error::deserial(format!(
+                "corrupted: entry_bits must be in [1, 63], got {entry_bits}"
+            )));
+        }
+        if (num_entries as u128) * (entry_bits as u128) > (cursor.remaining() as u128) * 8 {
+            return Err(Error::insufficient_data("delta_block"));
+        }
+
         let mut i = 0usize;
         let mut entries = vec![0u64; num_entries];
         while i + BLOCK_WIDTH <= num_entries {
